@@ -143,6 +143,7 @@ def build_harness(name, log):
     lk = _lock()
     try:
         if os.path.exists(out):
+            os.utime(out, None)
             return out
         t0 = time.time()
         cmd = [cxx] + flags + ["-I" + os.path.join(REPO, "include"), "-I" + os.path.join(VERIF, "harness"),
@@ -152,14 +153,18 @@ def build_harness(name, log):
             raise BuildError("harness %s does not compile against the current tree:\n%s" % (name, r.stderr[-3000:]))
         os.rename(out + ".tmp", out)
         log("built %s in %.1fs" % (name, time.time() - t0))
-        # keep the cache small: drop older binaries of this harness
+        # keep the cache small: keep the three most recently used binaries of this harness (the unchanged tree's binary
+        # survives a run against a modified tree and back)
+        olds = []
         for f in os.listdir(CACHE):
             if f.startswith(name + "-") and os.path.join(CACHE, f) != out and not f.endswith(".tmp") \
                     and re.match(r"^%s-[0-9a-f]{28}$" % re.escape(name), f):
-                try:
-                    os.remove(os.path.join(CACHE, f))
-                except OSError:
-                    pass
+                olds.append((os.path.getatime(os.path.join(CACHE, f)), f))
+        for _, f in sorted(olds, reverse=True)[2:]:
+            try:
+                os.remove(os.path.join(CACHE, f))
+            except OSError:
+                pass
         return out
     finally:
         lk.close()
